@@ -280,6 +280,67 @@ theorem C16_select_after (isWord : Char → Bool) (lower : List Char → List Ch
   rw [mem_selectIdx]
   cases expr <;> simp
 
+/-- **-k / -m at project level.** With well-formed (or absent = empty) expressions, the tasks that
+`select_tasks_by_marks_and_expressions` leaves selected are exactly those for which every GIVEN expression is true:
+`{t | (no -k ∨ eval k t) ∧ (no -m ∨ eval m t)}`. -/
+theorem C16_select_project (isWord : Char → Bool) (lower : List Char → List Char) (kexpr mexpr : List Char)
+    (tasks : List TaskInfo) (ak am : Ast) (hk : kexpr = [] ∨ compile isWord kexpr = .ok ak)
+    (hm : mexpr = [] ∨ compile isWord mexpr = .ok am) :
+    ∃ res, selectProject isWord lower kexpr mexpr tasks = .ok res ∧
+      ∀ i, i ∈ res ↔ ∃ t, tasks[i]? = some t ∧ (kexpr = [] ∨ eval (kwMatch lower (kwNames t)) ak = true) ∧
+        (mexpr = [] ∨ eval (markMatch t.markers) am = true) := by
+  obtain ⟨k0, k1, k2⟩ := C16_select_keyword isWord lower kexpr tasks
+  obtain ⟨m0, m1, m2⟩ := C16_select_mark isWord mexpr tasks
+  have hkk : ∃ rk, selectByKeyword isWord lower kexpr tasks = .ok rk ∧ ∀ i t, tasks[i]? = some t →
+      (keptBy rk i = true ↔ (kexpr = [] ∨ eval (kwMatch lower (kwNames t)) ak = true)) := by
+    by_cases he : kexpr = []
+    · exact ⟨none, k0 he, fun i t _ => by simp [keptBy, he]⟩
+    · have hc := hk.resolve_left he
+      obtain ⟨sel, hs, hmem⟩ := k2 he ak hc
+      refine ⟨some sel, hs, fun i t ht => ?_⟩
+      simp only [keptBy, List.contains_iff_mem, hmem, ht, Option.some.injEq, exists_eq_left', he, false_or]
+  have hmm : ∃ rm, selectByMark isWord mexpr tasks = .ok rm ∧ ∀ i t, tasks[i]? = some t →
+      (keptBy rm i = true ↔ (mexpr = [] ∨ eval (markMatch t.markers) am = true)) := by
+    by_cases he : mexpr = []
+    · exact ⟨none, m0 he, fun i t _ => by simp [keptBy, he]⟩
+    · have hc := hm.resolve_left he
+      obtain ⟨sel, hs, hmem⟩ := m2 he am hc
+      refine ⟨some sel, hs, fun i t ht => ?_⟩
+      simp only [keptBy, List.contains_iff_mem, hmem, ht, Option.some.injEq, exists_eq_left', he, false_or]
+  obtain ⟨rk, hrk, hkept⟩ := hkk
+  obtain ⟨rm, hrm, hmept⟩ := hmm
+  refine ⟨(List.range tasks.length).filter (fun i => keptBy rk i && keptBy rm i), by simp only [selectProject, hrk, hrm], fun i => ?_⟩
+  simp only [List.mem_filter, List.mem_range, Bool.and_eq_true]
+  constructor
+  · rintro ⟨hi, h1, h2⟩
+    have ht : tasks[i]? = some tasks[i] := List.getElem?_eq_getElem hi
+    exact ⟨tasks[i], ht, (hkept i _ ht).1 h1, (hmept i _ ht).1 h2⟩
+  · rintro ⟨t, ht, h1, h2⟩
+    have hi : i < tasks.length := by
+      rcases Nat.lt_or_ge i tasks.length with h | h
+      · exact h
+      · rw [List.getElem?_eq_none h] at ht; cases ht
+    exact ⟨hi, (hkept i t ht).2 h1, (hmept i t ht).2 h2⟩
+
+/-- **The empty selection deselects everything.** A given `-k` expression that is false for every collected task leaves
+no task selected (it is not treated like an absent option), whatever `-m` says; likewise for `-m`. -/
+theorem C16_select_project_empty (isWord : Char → Bool) (lower : List Char → List Char) (kexpr mexpr : List Char)
+    (tasks : List TaskInfo) (ak am : Ast) (hk : kexpr = [] ∨ compile isWord kexpr = .ok ak)
+    (hm : mexpr = [] ∨ compile isWord mexpr = .ok am)
+    (hnone : (kexpr ≠ [] ∧ ∀ t ∈ tasks, eval (kwMatch lower (kwNames t)) ak = false) ∨
+             (mexpr ≠ [] ∧ ∀ t ∈ tasks, eval (markMatch t.markers) am = false)) :
+    selectProject isWord lower kexpr mexpr tasks = .ok [] := by
+  obtain ⟨res, hres, hmem⟩ := C16_select_project isWord lower kexpr mexpr tasks ak am hk hm
+  rw [hres]
+  congr 1
+  apply List.eq_nil_iff_forall_not_mem.2
+  intro i hi
+  obtain ⟨t, ht, h1, h2⟩ := (hmem i).1 hi
+  have htm : t ∈ tasks := List.mem_of_getElem? ht
+  rcases hnone with ⟨hne, hall⟩ | ⟨hne, hall⟩
+  · have := h1.resolve_left hne; simp [hall t htm] at this
+  · have := h2.resolve_left hne; simp [hall t htm] at this
+
 /-- **after, per project.** `_modify_dag` visits the tasks in some order; whatever that order and whatever `after` strings
 the *other* tasks carry, a task without string gets no after-predecessor and a task `i` with string `e` gets exactly
 `afterPredsOf … i e`: the tasks whose `KeywordMatcher` satisfies the formula `e` denotes, minus `i` itself. The result
@@ -384,6 +445,16 @@ example : selectByKeyword asciiWord exLower "prep and not slow".toList [exTask, 
   decide +kernel
 example : selectByMark asciiWord "slow".toList [exTask, exTask2] = .ok (some [0]) := by decide +kernel
 example : selectByAfter asciiWord exLower "PREPARE".toList [exTask, exTask2] = .ok [0, 1] := by decide +kernel
+
+/-- `-k delta` on tasks alpha / beta / gamma selects nothing; `-k "alpha and beta"` nothing; `-m slow` exactly the marked one;
+without options everything stays. -/
+def exProj : List TaskInfo :=
+  [{ name := "task_alpha".toList, attrs := [], markers := [] }, { name := "task_beta".toList, attrs := [], markers := ["slow".toList] },
+   { name := "task_gamma".toList, attrs := [], markers := [] }]
+example : selectProject asciiWord exLower "delta".toList [] exProj = .ok [] := by decide +kernel
+example : selectProject asciiWord exLower "alpha and beta".toList [] exProj = .ok [] := by decide +kernel
+example : selectProject asciiWord exLower "alpha or beta".toList "slow".toList exProj = .ok [1] := by decide +kernel
+example : selectProject asciiWord exLower [] [] exProj = .ok [0, 1, 2] := by decide +kernel
 
 /-- Three tasks, two of them sharing the string `prep`, one of these matching it itself: the later declarer still has to
 follow the earlier, self-matching one — in whatever order the tasks are visited. -/
